@@ -600,8 +600,10 @@ package parser
 // byte after basePos, the ';'), its columns count the UTF-16 units of the comment text before those offsets, and the tags
 // follow each other without overlap (each one is searched after the end of the previous one).
 //@ pred TagAt(text, bp, t) := t.Range.Start.Line == bp.Line && t.Range.End.Line == bp.Line && bp.Offset + 1 <= t.Range.Start.Offset && t.Range.Start.Offset < t.Range.End.Offset && t.Range.End.Offset <= bp.Offset + 1 + len(text) && t.Range.Start.Column == bp.Column + 1 + u16(substr(text, 0, t.Range.Start.Offset - bp.Offset - 1), t.Range.Start.Offset - bp.Offset - 1) && t.Range.End.Column == bp.Column + 1 + u16(substr(text, 0, t.Range.End.Offset - bp.Offset - 1), t.Range.End.Offset - bp.Offset - 1)
-//@ trusted isValidTagName
+//@ func isValidTagName
+//@   props C06 C08
 //@   effects none
+//@   loop 1 decreases *
 //@ func utf16Units
 //@   props C08 C06
 //@   effects none
